@@ -42,8 +42,8 @@ type Case struct {
 	Inconclusive string
 }
 
-func (c *Case) NonTrivial()        { c.nontrivial = true }
-func (c *Case) Label(l string)     { c.labels = append(c.labels, l) }
+func (c *Case) NonTrivial()    { c.nontrivial = true }
+func (c *Case) Label(l string) { c.labels = append(c.labels, l) }
 func (c *Case) Logf(f string, a ...any) {
 	if len(c.Trace) < 4000 {
 		c.Trace = append(c.Trace, fmt.Sprintf(f, a...))
@@ -90,21 +90,21 @@ func IDs() (ret []string) {
 // Evidence fragment
 
 type Fragment struct {
-	Sub             string           `json:"sub"`
-	Rule            string           `json:"rule"`
-	Assumptions     []string         `json:"assumptions"`
-	Evaluations     int64            `json:"evaluations"`
-	NonTrivial      int64            `json:"nontrivial"`
-	Digests         []uint64         `json:"digests"`
-	Labels          map[string]int64 `json:"labels"`
-	Samples         []any            `json:"samples"`
-	Violations      []FailRecord     `json:"violations"`
-	Known           map[string]int64 `json:"known"`
+	Sub             string            `json:"sub"`
+	Rule            string            `json:"rule"`
+	Assumptions     []string          `json:"assumptions"`
+	Evaluations     int64             `json:"evaluations"`
+	NonTrivial      int64             `json:"nontrivial"`
+	Digests         []uint64          `json:"digests"`
+	Labels          map[string]int64  `json:"labels"`
+	Samples         []any             `json:"samples"`
+	Violations      []FailRecord      `json:"violations"`
+	Known           map[string]int64  `json:"known"`
 	KnownWhat       map[string]string `json:"known_what"`
-	Inconclusive    int64            `json:"inconclusive"`
-	InconclusiveWhy []string         `json:"inconclusive_why"`
-	WallS           float64          `json:"wall_s"`
-	Extra           map[string]any   `json:"extra,omitempty"`
+	Inconclusive    int64             `json:"inconclusive"`
+	InconclusiveWhy []string          `json:"inconclusive_why"`
+	WallS           float64           `json:"wall_s"`
+	Extra           map[string]any    `json:"extra,omitempty"`
 }
 
 type FailRecord struct {
